@@ -212,7 +212,11 @@ class Sub:
         max_shards=16,
         wall_cap=None,
         stateful=False,
+        min_per_shard=None,
     ):
+        # expensive sub-checks (>= 0.1 s per case) should set min_per_shard low (e.g. 4) so that a
+        # small budget still spreads over all 16 worker processes
+        self.min_per_shard = min_per_shard
         self.name = name
         self.check = check
         self.kind = kind
